@@ -291,6 +291,12 @@ func c05Gen(tier string, emit func(c05Case)) {
 			})
 		}
 	}
+	// a custom NotFound chain on a router without global middleware that has served unmatched and matched requests before
+	for n := 1; n <= 3; n++ {
+		vectors("pnqabtsm", n, func(b string) {
+			push(chainShape{N: n, Split: [3]int{0, 0, n - 1}, Via: "notfound-custom-only", Beh: b})
+		})
+	}
 	for n := 2; n <= 4; n++ {
 		vectors("pnqabtsmuz", n, func(b string) {
 			push(chainShape{N: n, Split: [3]int{n - 1, 0, 0}, Via: "notfound-custom-first", Beh: b})
